@@ -31,6 +31,17 @@ pub fn level_mods(l: usize) -> Modifiers {
     }
 }
 
+// the five facts from the nine flags, as in lemmas/ldefs.rs (not through the crate's predicates)
+fn shift(m: &Modifiers) -> bool {
+    m.lshift || m.rshift
+}
+fn ctrl(m: &Modifiers) -> bool {
+    m.lctrl || m.rctrl
+}
+fn altgr(m: &Modifiers) -> bool {
+    m.ralt || (m.lalt && (m.lctrl || m.rctrl))
+}
+
 const MODES: [HandleControl; 2] = [HandleControl::Ignore, HandleControl::MapLettersToUnicode];
 
 fn mode_name(h: HandleControl) -> &'static str {
@@ -99,11 +110,11 @@ fn fail2(what: &str, l: &str, k: &str, m: &Modifiers, n: &Modifiers, h: HandleCo
 
 fn selects(lvl: usize, m: &Modifiers, h: HandleControl) -> bool {
     !m.capslock
-        && !(h == HandleControl::MapLettersToUnicode && m.is_ctrl())
+        && !(h == HandleControl::MapLettersToUnicode && ctrl(m))
         && match lvl {
-            0 => !m.is_shifted() && !m.is_altgr(),
-            1 => m.is_shifted() && !m.is_altgr(),
-            _ => m.is_altgr() && !m.is_shifted(),
+            0 => !shift(m) && !altgr(m),
+            1 => shift(m) && !altgr(m),
+            _ => altgr(m) && !shift(m),
         }
 }
 
@@ -119,13 +130,13 @@ pub fn run(args: &[String]) -> String {
             let letter = matches!(base, DecodedKey::Unicode(c) if ('a'..='z').contains(&c));
             for m in &mods {
                 let with = map(l, k, m, HandleControl::MapLettersToUnicode);
-                if letter && m.is_ctrl() && !m.lalt && !m.ralt {
+                if letter && ctrl(m) && !m.lalt && !m.ralt {
                     let c = if let DecodedKey::Unicode(c) = base { c as u32 } else { 0 };
                     if with != uni(c - 0x60) {
                         return fail1("C09 ctrl+letter", l, &args[2], m, HandleControl::MapLettersToUnicode, with, &fmt_decoded(uni(c - 0x60)));
                     }
                 }
-                if !letter || !m.is_ctrl() {
+                if !letter || !ctrl(m) {
                     let without = map(l, k, m, HandleControl::Ignore);
                     if with != without {
                         return fail1("C09 ctrl handling must change nothing here", l, &args[2], m, HandleControl::MapLettersToUnicode, with, &fmt_decoded(without));
@@ -138,9 +149,10 @@ pub fn run(args: &[String]) -> String {
             let k = key_from(&args[2]);
             let letter = lower_upper(map(l, k, &m0(), HandleControl::Ignore), map(l, k, &level_mods(1), HandleControl::Ignore));
             for h in MODES {
-                for m in &mods {
-                    let a = map(l, k, m, h);
-                    for n in &mods {
+                let outs: Vec<DecodedKey> = mods.iter().map(|m| map(l, k, m, h)).collect();
+                for (i, m) in mods.iter().enumerate() {
+                    let a = outs[i];
+                    for (j, n) in mods.iter().enumerate() {
                         let related = if prop == "C10" {
                             m.capslock != n.capslock
                                 && m.lctrl == n.lctrl
@@ -149,16 +161,12 @@ pub fn run(args: &[String]) -> String {
                                 && m.ralt == n.ralt
                                 && m.rctrl2 == n.rctrl2
                                 && m.numlock == n.numlock
-                                && (if letter { m.is_shifted() != n.is_shifted() } else { m.lshift == n.lshift && m.rshift == n.rshift })
+                                && (if letter { shift(m) != shift(n) } else { m.lshift == n.lshift && m.rshift == n.rshift })
                         } else {
-                            m.is_shifted() == n.is_shifted()
-                                && m.is_ctrl() == n.is_ctrl()
-                                && m.is_altgr() == n.is_altgr()
-                                && m.capslock == n.capslock
-                                && (!is_numpad(k) || m.numlock == n.numlock)
+                            shift(m) == shift(n) && ctrl(m) == ctrl(n) && altgr(m) == altgr(n) && m.capslock == n.capslock && (!is_numpad(k) || m.numlock == n.numlock)
                         };
                         if related {
-                            let b = map(l, k, n, h);
+                            let b = outs[j];
                             if a != b {
                                 return fail2(if prop == "C10" { if letter { "C10 CapsLock must invert Shift on this letter key" } else { "C10 CapsLock must not affect this key" } } else { "C11 same five facts, different output" }, l, &args[2], m, n, h, a, b);
                             }
